@@ -1635,3 +1635,45 @@ SEEDS["C06_local_subclass_class_attribute"] = ("C06", [(S, """_shape_storage = t
 
 
 _shape_storage = _PerThread()""")], "C06")
+
+
+# ------------------------------------------------------------------------- wave 4: composed clauses and new rules
+SEEDS["C03_split_first_dot"] = ("C03", [(A, """                *_, dtype = repr(obj.dtype).rsplit(".", 1)""", """                dtype = repr(obj.dtype).split(".", 1)[-1]""")], "C03.6")
+SEEDS["C03_partition_first_dot"] = ("C03", [(A, """                *_, dtype = repr(obj.dtype).rsplit(".", 1)""", """                _, _, dtype = repr(obj.dtype).partition(".")""")], "C03.6")
+TWINS["C03_twin_rsplit_index"] = ("C03", [(A, """                *_, dtype = repr(obj.dtype).rsplit(".", 1)""", """                dtype = repr(obj.dtype).rsplit(".", 1)[-1]""")])
+TWINS["C03_twin_rpartition"] = ("C03", [(A, """                *_, dtype = repr(obj.dtype).rsplit(".", 1)""", """                dtype = repr(obj.dtype).rpartition(".")[2]""")])
+SEEDS["C13_shape_str_merges_tables"] = ("C13", [(S, """    pieces = []
+    if len(single_memo) > 0 or len(variadic_memo) > 0:""", """    single_memo = {**single_memo, **variadic_memo}
+    variadic_memo = {}
+    pieces = []
+    if len(single_memo) > 0 or len(variadic_memo) > 0:""")], "C13.8")
+SEEDS["C13_shape_str_drops_structures"] = ("C13", [(S, """        for name, structure in pytree_memo.items():
+            pieces.append(f"{name}={structure}")""", """        pieces.append(f"{len(pytree_memo)} structure name(s) bound")""")], "C13.8")
+for _p, _rule in (("C09", "C09.5"), ("C12", "C12.6")):
+    SEEDS[f"{_p}_pytree_backup_alias"] = (_p, SEEDS["C04_restore_live_memo"][1], _rule)
+    SEEDS[f"{_p}_pytree_exception_only"] = (_p, SEEDS["C04_pytree_exception_only"][1], _rule)
+    SEEDS[f"{_p}_restore_skipped_same_size"] = (_p, SEEDS["C04_restore_skipped_same_size"][1], _rule)
+SEEDS["C11_manual_patch_without_finally"] = ("C11", SEEDS["C18_manual_patch_without_finally"][1], "C11.6")
+SEEDS["C11_patch_around_exec_module"] = ("C11", SEEDS["C18_patch_around_exec_module"][1], "C11.6")
+SEEDS["C13_structureless_clears_label"] = ("C13", SEEDS["C16_structureless_clears_label"][1], "C13.7")
+SEEDS["C02_eval_live_memo"] = ("C02", [(A, """                eval_size = eval(elem, single_memo.copy())""", """                eval_size = eval(elem, single_memo)""")], "C02.6")
+SEEDS["C06_toplevel_fallback_state"] = ("C06", [(S, """def clear_treepath_memo() -> None:
+    _treepath_storage.value = None""", """class _Fallback:
+    value = None
+
+
+_fallback_state = _Fallback()
+
+
+def _state():
+    return _fallback_state if not _has_shape_memo() else _treepath_storage
+
+
+def clear_treepath_memo() -> None:
+    _state().value = None""")], "C06")
+SEEDS["C06_contextvar_mutable_default"] = ("C06", [(S, """_shape_storage = threading.local()""", """import contextvars
+
+_scratch = contextvars.ContextVar("jaxtyping_scratch", default=[])
+_shape_storage = threading.local()"""), (S, """def pop_shape_memo() -> None:
+    _shape_storage.memo_stack.pop()""", """def pop_shape_memo() -> None:
+    _scratch.get().append(_shape_storage.memo_stack.pop())""")], "C06")
